@@ -12,6 +12,7 @@ import (
 	"fmt"
 	"os"
 	"runtime"
+	"sync"
 	"testing"
 	"testing/synctest"
 
@@ -27,6 +28,9 @@ type Thread struct {
 // Scenario is one fresh instance of the component under test with its threads.
 type Scenario struct {
 	Threads []Thread
+	// Observe, if set, is told after every step which threads are durably blocked inside
+	// their current step (e.g. to record the order in which callers started to wait).
+	Observe func(blocked []string)
 	// AfterStep, if set, is evaluated after every step has run to quiescence.
 	AfterStep func() *explore.Fail
 	// Final is evaluated when no thread can take a step any more. blocked lists the threads
@@ -48,6 +52,40 @@ type thread struct {
 	startedAt int // index of the step that was granted last
 	done      bool
 	running   bool
+	atPoint   bool // parked at a lock point inside its current step
+}
+
+// registry of the goroutines that are scheduler threads (lock-point preemption)
+var (
+	regMu sync.Mutex
+	reg   = map[uint64]*thread{}
+)
+
+func goid() uint64 {
+	var buf [64]byte
+	b := buf[:runtime.Stack(buf[:], false)]
+	// "goroutine 123 [running]:"
+	var id uint64
+	for _, c := range b[len("goroutine "):] {
+		if c < '0' || c > '9' {
+			break
+		}
+		id = id*10 + uint64(c-'0')
+	}
+	return id
+}
+
+// Point is the lock-point hook (install it as vsync.Hook): a scheduler thread that is about
+// to acquire a lock parks here until the explorer lets it continue. Other goroutines pass.
+func Point() {
+	regMu.Lock()
+	th := reg[goid()]
+	regMu.Unlock()
+	if th == nil {
+		return
+	}
+	th.atPoint = true
+	<-th.gate
 }
 
 // Result of one exploration.
@@ -72,6 +110,15 @@ func runOne(t *testing.T, mk func() *Scenario, c *explore.Chooser, onFail func(*
 		finished := make(chan int, len(ths))
 		for i, th := range ths {
 			go func(i int, th *thread) {
+				id := goid()
+				regMu.Lock()
+				reg[id] = th
+				regMu.Unlock()
+				defer func() {
+					regMu.Lock()
+					delete(reg, id)
+					regMu.Unlock()
+				}()
 				for range th.Steps {
 					<-th.gate
 					th.Steps[th.next]()
@@ -80,6 +127,7 @@ func runOne(t *testing.T, mk func() *Scenario, c *explore.Chooser, onFail func(*
 				finished <- i
 			}(i, th)
 		}
+		last := -1
 		for {
 			synctest.Wait()
 			// classify: a thread is enabled if it has steps left and is not inside one
@@ -92,13 +140,18 @@ func runOne(t *testing.T, mk func() *Scenario, c *explore.Chooser, onFail func(*
 				if th.done {
 					continue
 				}
-				if th.running && th.next == th.startedAt {
+				if th.running && th.next == th.startedAt && !th.atPoint {
 					// still inside the step that was started
 					blocked = append(blocked, th.Name)
 					continue
 				}
-				th.running = false
+				if !th.atPoint {
+					th.running = false
+				}
 				enabled = append(enabled, i)
+			}
+			if sc.Observe != nil {
+				sc.Observe(blocked)
 			}
 			if sc.AfterStep != nil && fail == nil {
 				if f := sc.AfterStep(); f != nil {
@@ -111,11 +164,27 @@ func runOne(t *testing.T, mk func() *Scenario, c *explore.Chooser, onFail func(*
 				}
 				break
 			}
-			k := c.ChooseCost(len(enabled), 0)
+			// canonical order: the thread that ran last first (continuing it is never a
+			// preemption); switching away from it while it could continue costs one preemption
+			cost := 0
+			for j, i := range enabled {
+				if i == last && ths[i].atPoint {
+					enabled[0], enabled[j] = enabled[j], enabled[0]
+					cost = 1
+					break
+				}
+			}
+			k := c.ChooseCost(len(enabled), cost)
 			th := ths[enabled[k]]
-			trace = append(trace, fmt.Sprintf("%s.%d", th.Name, th.next))
-			th.running = true
-			th.startedAt = th.next
+			last = enabled[k]
+			if th.atPoint {
+				trace = append(trace, fmt.Sprintf("%s.%d+", th.Name, th.next))
+				th.atPoint = false
+			} else {
+				trace = append(trace, fmt.Sprintf("%s.%d", th.Name, th.next))
+				th.running = true
+				th.startedAt = th.next
+			}
 			steps++
 			th.gate <- struct{}{}
 		}
@@ -137,6 +206,12 @@ func runOne(t *testing.T, mk func() *Scenario, c *explore.Chooser, onFail func(*
 			synctest.Wait()
 			progressed := false
 			for _, th := range ths {
+				if th.atPoint {
+					th.atPoint = false
+					th.gate <- struct{}{}
+					progressed = true
+					continue
+				}
 				inside := th.running && th.next == th.startedAt
 				if th.next < len(th.Steps) && !inside {
 					th.running, th.startedAt = true, th.next
@@ -151,7 +226,7 @@ func runOne(t *testing.T, mk func() *Scenario, c *explore.Chooser, onFail func(*
 		if sc.AfterCleanup != nil && fail == nil {
 			var stuck []string
 			for _, th := range ths {
-				if th.running && th.next == th.startedAt && th.next < len(th.Steps) {
+				if th.running && th.next == th.startedAt && th.next < len(th.Steps) && !th.atPoint {
 					stuck = append(stuck, th.Name)
 				}
 			}
@@ -172,9 +247,15 @@ func runOne(t *testing.T, mk func() *Scenario, c *explore.Chooser, onFail func(*
 // Explore enumerates every schedule of the scenario (all choices are cost 0: the
 // enumeration is exhaustive unless maxExec caps it).
 func Explore(t *testing.T, e explore.Env, maxExec int64, mk func() *Scenario) Result {
+	return ExploreBounded(t, e, -1, maxExec, mk)
+}
+
+// ExploreBounded is Explore with a bound on preemptions at lock points (only meaningful
+// when the code under test was built against vsync and vsync.Hook = Point); -1 = unbounded.
+func ExploreBounded(t *testing.T, e explore.Env, maxPreempt int, maxExec int64, mk func() *Scenario) Result {
 	res := Result{Outcomes: map[string]int64{}}
 	stop := func() bool { return e.Expired() || res.Fail != nil }
-	r := explore.EnumerateChoices(-1, maxExec, stop, func(c *explore.Chooser) {
+	r := explore.EnumerateChoices(maxPreempt, maxExec, stop, func(c *explore.Chooser) {
 		var noted *explore.Fail
 		var notedTrace []string
 		defer func() {
